@@ -442,6 +442,7 @@ def sec_hosts(cx, tier, seed, param):
                 for pp in ((p, p + "/") if d < 3 else (p,)):
                     for deco in (S["decos"] if d < D else S["decos"][:1]):
                         check_platform(cx, platform, base + pp + deco)
+    cx.col.sample({"section": "hosts", "platform": platform, "url": form % S["alt_hosts"][0] + "/" + vocab[0] + S["decos"][-1]})
 
 
 def sec_query(cx, tier, seed, param):
@@ -472,6 +473,8 @@ def sec_relative(cx, tier, seed, param):
             for trail in ("", "/"):
                 for deco in S["decos"] + (["?id=5"] if tier == "quick" else ["?story_fbid=4", "?id=5", "#f"]):
                     check_platform(cx, "facebook", lead + p + trail + deco)
+    if first == "photos":
+        cx.col.sample({"section": "relative", "platform": "facebook", "url": "/nom/photos/a.456/123", "allow_relative_urls": True})
 
 
 def sec_trunc(cx, tier, seed, param):
@@ -518,6 +521,7 @@ def sec_affix(cx, tier, seed, param):
             continue
         for suf in sufs2:
             check_platform(cx, platform, host + "/" + w + suf, nontriv=False)
+    cx.col.sample({"section": "affix", "platform": platform, "url": "[." + host + "/a"})
 
 
 def sec_random(cx, tier, seed, param):
@@ -631,7 +635,13 @@ def main():
     jobs = make_jobs(a.tier, a.seed)
     vtotals = {}
     cands = {}
+    by_section = {}
     for part in run_sharded(shard_worker, jobs, a.jobs):
+        for s in part["samples"]:
+            lst = by_section.setdefault(s.get("section"), [])
+            if s not in lst:
+                lst.append(s)
+        part["samples"] = []
         for k, n in part["vtotals"].items():
             vtotals[k] = vtotals.get(k, 0) + n
         for v in part["violations"]:
@@ -656,7 +666,13 @@ def main():
                 col.violation(v["clause"], v["function"], v["input"], v["observed"], v["expected"], v.get("note", ""))
                 if len(col.vkeys) > n0:
                     per_clause[key[0]] = per_clause.get(key[0], 0) + 1
-    col.samples = col.samples[:12]
+    # a few actual inputs, from every section in turn
+    i = 0
+    while len(col.samples) < 12 and any(by_section.values()):
+        sec = sorted(by_section)[i % len(by_section)]
+        if by_section[sec]:
+            col.samples.append(by_section[sec].pop(0))
+        i += 1
     col.exhaustive = True
     D = depth_of(a.tier)
     col.bounds = {
